@@ -553,6 +553,92 @@ def r8_pub_fields(text):
 # items
 # --------------------------------------------------------------------------
 
+def inline_helper(body, helper_name, helper_sig, helper_body):
+    """R21 helper inlining: a call `RECV.helper(ARGS)` / `Self::helper(ARGS)` to a private helper of the same file that is
+    not under contract is replaced by a block `{ let (params) = (ARGS); BODY[self -> RECV] }`.  Only for helpers without
+    generics, without `return`, whose parameters are plain `name: Type` - otherwise Undecided.  Semantics-preserving
+    (arguments are evaluated first, left to right, as in a call)."""
+    stoks, smatch = _toks(helper_sig)
+    fi = next(i for i, t in enumerate(stoks) if t.text == "fn")
+    if stoks[fi + 2].text != "(":
+        raise Undecided("R21: helper %s has generics" % helper_name)
+    po, pc = fi + 2, smatch[fi + 2]
+    params = []
+    has_self = False
+    k = po + 1
+    cur = []
+    depth = 0
+    groups = []
+    while k < pc:
+        tx = stoks[k].text
+        if tx in ("(", "[", "<"):
+            depth += 1
+        elif tx in (")", "]", ">"):
+            depth -= 1
+        if tx == "," and depth == 0:
+            groups.append(cur)
+            cur = []
+        else:
+            cur.append(stoks[k])
+        k += 1
+    if cur:
+        groups.append(cur)
+    for gidx, g in enumerate(groups):
+        txt = [t.text for t in g]
+        if gidx == 0 and "self" in txt and ":" not in txt:
+            has_self = True
+            continue
+        if len(txt) < 3 or txt[1] != ":" and not (txt[0] == "mut" and txt[2] == ":"):
+            raise Undecided("R21: helper %s has a non-trivial parameter pattern" % helper_name)
+        name = txt[1] if txt[0] == "mut" else txt[0]
+        ty = helper_sig[g[txt.index(":") + 1].start:g[-1].end]
+        params.append((name, ty, txt[0] == "mut"))
+    btoks, _ = _toks(helper_body)
+    if any(t.kind == "ident" and t.text == "return" for t in btoks):
+        raise Undecided("R21: helper %s contains `return`" % helper_name)
+    hits = 0
+    while True:
+        toks, match = _toks(body)
+        found = None
+        for i, t in enumerate(toks):
+            if t.kind == "ident" and t.text == helper_name and i + 1 < len(toks) and toks[i + 1].text == "(" and i >= 2 \
+                    and toks[i - 1].text in (".", "::"):
+                # receiver path
+                if toks[i - 1].text == "::":
+                    if toks[i - 2].text != "Self" or has_self:
+                        continue
+                    start = i - 2
+                    recv = None
+                else:
+                    if not has_self:
+                        continue
+                    s0 = i - 2
+                    while s0 - 2 >= 0 and toks[s0 - 1].text == "." and toks[s0 - 2].kind == "ident":
+                        s0 -= 2
+                    if toks[s0].kind != "ident":
+                        continue
+                    start = s0
+                    recv = body[toks[s0].start:toks[i - 2].end]
+                found = (start, i, match[i + 1], recv)
+                break
+        if not found:
+            return body, hits
+        start, i, close, recv = found
+        args = body[toks[i + 1].end:toks[close].start].strip().rstrip(",")
+        hb = helper_body
+        if recv is not None:
+            hb = _apply(hb, [(b.start, b.end, recv) for b in btoks if b.kind == "ident" and b.text == "self"])
+        if params:
+            binder = "let (%s) = (%s%s);" % (", ".join(("mut " if m else "") + n for n, _, m in params), args, "," if len(params) == 1 else "")
+        else:
+            binder = ""
+        inner = hb.strip()
+        assert inner.startswith("{") and inner.endswith("}")
+        rep = "{ %s %s }" % (binder, inner[1:-1])
+        body = body[:toks[start].start] + rep + body[toks[close].end:]
+        hits += 1
+
+
 class Piece:
     """A chunk of generated text with its origin (for mapping verifier lines back)."""
 
@@ -586,6 +672,7 @@ class FnItem:
         attrs [str], math_inc [names], profile_debug (bool), occurrence (int, default 0), trait_impl(bool)"""
         self.spec = spec
         rel = spec["file"]
+        self._repo = repo
         src = Source(repo + "/" + rel)
         lo, hi = 0, len(src.toks)
         self.impl_header = None
@@ -629,6 +716,18 @@ class FnItem:
         sp = self.spec
         sig, body = self.sig_src, self.body_src
         hits = {}
+        for hname in sp.get("inline_helpers", []):
+            src = Source(self._repo + "/" + self.rel)
+            cands = src.find_fn(hname)
+            for b in src.find_blocks("impl", "."):
+                cands += src.find_fn(hname, b[1] + 1, b[2])
+            if len(cands) != 1:
+                raise Undecided("R21: helper fn %s found %d times in %s" % (hname, len(cands), self.rel))
+            s0, fi0, o0, c0 = cands[0]
+            hsig = src.text[src.toks[s0].start:src.toks[o0].start]
+            hbody = src.text[src.toks[o0].start:src.toks[c0].end]
+            body, h = inline_helper(body, hname, hsig, hbody)
+            hits["R21"] = hits.get("R21", 0) + h
         if sp.get("profile_debug") is not None:
             body, h = r4_cfg_resolve(body, sp["profile_debug"])
             hits["R4"] = h
@@ -658,6 +757,20 @@ class FnItem:
         for extra in sp.get("extra_rewrites", []):
             body, h = extra(body)
             hits[extra.__name__] = h
+        # constructs this Verus models imprecisely (sound, but a proof that depends on them fails for no semantic reason):
+        # a failed obligation in a function that contains one is reported as UNDECIDED, never as a violation
+        self.imprecise = []
+        btoks, bmatch = _toks(body)
+        for i, t in enumerate(btoks):
+            if t.kind == "str" and i + 1 < len(btoks) and btoks[i + 1].text in ("=>", "|") and i > 0 and btoks[i - 1].text in ("{", ",", "|"):
+                self.imprecise.append("string-literal pattern %s" % t.text[:20])
+                break
+        n_closures = 0
+        for i, t in enumerate(btoks):
+            if t.text in ("|", "||") and i > 0 and btoks[i - 1].text in ("(", ","):
+                n_closures += 1
+        if n_closures > len(sp.get("closures") or {}):
+            self.imprecise.append("%d closure(s) without a spliced contract" % (n_closures - len(sp.get("closures") or {})))
         hits = {k: v for k, v in hits.items() if v}
         self.rule_hits = hits
         expected = sp.get("rules", {})
@@ -665,7 +778,7 @@ class FnItem:
             expected = hits
         # R1 / R2 only remove or guard logging, R3/R3b/R6/R7/R14/R20 are the language's own desugarings: their site
         # counts are recorded, not pinned.  Pinned: rewrites that abstract something (R4 profile, R9 counters, clock ...)
-        strict = lambda d: {k: v for k, v in d.items() if k not in ("R1", "R2", "R3", "R3b", "R6", "R7", "R14", "R20")}
+        strict = lambda d: {k: v for k, v in d.items() if k not in ("R1", "R2", "R3", "R3b", "R6", "R7", "R14", "R20", "R21")}
         if strict(hits) != strict(expected):
             raise Undecided("%s::%s: rewrite sites changed: expected %r, found %r" % (self.rel, self.name, expected, hits))
         # signature: named return, drop pub(crate) noise is fine in verus
